@@ -947,3 +947,119 @@ pub(crate) fn h_sort_all_kinds() {
     file.sort();
     vrt_check(file == once && file.write_to_string() == out, "C14 sorting a second time changes nothing");
 }
+
+// ------------------------------------------------------------------ C18 / C01 / C02: IF_DATA interpreted as the A2ML says; pass-through of uninterpreted data
+
+const AML_DEFS: &[&str] = &[
+    "block \"IF_DATA\" struct { int; ulong; float; char[8]; enum { \"A\" = 1, \"B\" = 2 }; };",
+    "block \"IF_DATA\" taggedunion { \"T1\" int; block \"B1\" (uint)*; };",
+    "block \"IF_DATA\" taggedstruct { (\"REP\" long)*; \"OPT\" struct { int; int64; }; };",
+    "block \"IF_DATA\" struct { uint[3]; double; uint64; };",
+    "struct Inner { uchar; taggedstruct { \"FLAG\"; \"VAL\" uint; }; }; block \"IF_DATA\" struct { struct Inner; };",
+];
+
+/// (conforming instance, instance with a single-token deviation) per definition
+const AML_INST: &[(&str, &str)] = &[
+    ("-5 0x10 1.5 \"text\" B", "-5 0x10 1.5 \"text\" C"),
+    ("/begin B1 1 2 3 /end B1", "/begin B1 1 2 x /end B1"),
+    ("REP 1 REP 0x2 OPT 3 -4", "REP 1 REP 0x2 OPT 3"),
+    ("1 2 3 2.5 18446744073709551615", "1 2 2.5 18446744073709551615"),
+    ("7 FLAG VAL 0xFFFF", "7 FLAG VAL"),
+];
+
+fn ifdata_document(def: usize, inst: &str, crlf: bool) -> String {
+    let nl = if crlf { "\r\n" } else { "\n" };
+    let mut t = String::from("ASAP2_VERSION 1 71");
+    t.push_str(nl);
+    t.push_str("/begin PROJECT p \"\"");
+    t.push_str(nl);
+    t.push_str("/begin MODULE m \"\"");
+    t.push_str(nl);
+    t.push_str("/begin A2ML");
+    t.push_str(nl);
+    t.push_str(AML_DEFS[def]);
+    t.push_str(nl);
+    t.push_str("/end A2ML");
+    t.push_str(nl);
+    t.push_str("/begin IF_DATA ");
+    t.push_str(inst);
+    t.push_str(nl);
+    t.push_str("/end IF_DATA");
+    t.push_str(nl);
+    t.push_str("/end MODULE");
+    t.push_str(nl);
+    t.push_str("/end PROJECT");
+    t
+}
+
+pub(crate) fn h_ifdata_definitions() {
+    let def = vrt_choice(AML_DEFS.len() as u32) as usize;
+    let conforming = vrt_choice(2) == 0;
+    let crlf = vrt_choice(2) == 1;
+    let inst = if conforming { AML_INST[def].0 } else { AML_INST[def].1 };
+    let text = ifdata_document(def, inst, crlf);
+    match load_from_string(&text, None, false) {
+        Ok((mut file, _log)) => {
+            {
+                let ifd = &file.project.module[0].if_data;
+                vrt_check(ifd.len() == 1, "C18 the IF_DATA block is kept");
+                vrt_check(ifd[0].ifdata_valid == conforming, "C18 IF_DATA is flagged valid exactly when it conforms to the A2ML definition");
+            }
+            // values survive load and write unchanged (token level), reload gives an equal model, second write is identical
+            let out1 = file.write_to_string();
+            let a = significant(&text);
+            let b = significant(&out1);
+            vrt_check(a.len() == b.len(), "C18 load+write keeps the number of significant tokens (A2ML text and IF_DATA content)");
+            let n = if a.len() < b.len() { a.len() } else { b.len() };
+            for i in 0..n {
+                // line ends inside the raw A2ML text may be normalised (whitespace); everything else must be identical
+                vrt_check(a[i].0 == b[i].0 && a[i].1.replace('\r', "") == b[i].1.replace('\r', ""), "C18 every IF_DATA / A2ML token survives load and write unchanged");
+            }
+            match load_from_string(&out1, None, false) {
+                Ok((file2, _)) => {
+                    vrt_check(file2 == file, "C01 load(write(M)) == M with A2ML and IF_DATA");
+                    vrt_check(file2.write_to_string() == out1, "C01 second write is identical with A2ML and IF_DATA");
+                }
+                Err(_) => vrt_check(false, "C01 the written text loads again"),
+            }
+            file.ifdata_cleanup();
+            vrt_check(file.project.module[0].if_data.len() == if conforming { 1 } else { 0 }, "C18 ifdata_cleanup removes exactly the IF_DATA blocks that are flagged invalid");
+        }
+        Err(_) => vrt_check(false, "C18 structurally balanced IF_DATA never makes loading fail"),
+    }
+}
+
+/// uninterpreted IF_DATA (no A2ML at all): every token passes through with its value intact
+pub(crate) fn h_ifdata_uninterpreted() {
+    let payloads: [&str; 8] = ["1", "-7", "0x1F", "4294967297", "0x1FFFFFFFF", "1.5", "\"s\" ident", "/begin X 1 /begin Y \"a\" /end Y /end X"];
+    let k = vrt_choice(8) as usize;
+    let mut t = String::from("ASAP2_VERSION 1 71\n/begin PROJECT p \"\"\n/begin MODULE m \"\"\n/begin IF_DATA VENDOR ");
+    t.push_str(payloads[k]);
+    t.push_str("\n/end IF_DATA\n/end MODULE\n/end PROJECT");
+    let (file, log) = load_from_string(&t, None, false).unwrap();
+    let out1 = file.write_to_string();
+    let a = significant(&t);
+    let b = significant(&out1);
+    vrt_check(a.len() == b.len(), "C02 uninterpreted IF_DATA keeps its number of tokens");
+    let n = if a.len() < b.len() { a.len() } else { b.len() };
+    let mut changed = false;
+    for i in 0..n {
+        if !(a[i].0 == b[i].0 && a[i].1 == b[i].1) { changed = true; }
+    }
+    // a value the library cannot keep must be diagnosed, never silently changed
+    vrt_check(!changed || !log.is_empty(), "C02 uninterpreted IF_DATA passes through with its values intact (or the loss is diagnosed)");
+}
+
+/// a sequence whose element can match zero tokens must not make the loader spin
+pub(crate) fn h_ifdata_empty_sequence() {
+    let def = match vrt_choice(3) {
+        0 => "block \"IF_DATA\" (taggedstruct { \"X\" int; })*;",
+        1 => "block \"IF_DATA\" struct { (taggedstruct { \"X\" int; })*; };",
+        _ => "block \"IF_DATA\" (struct { taggedstruct { \"X\" int; }; })*;",
+    };
+    let mut t = String::from("ASAP2_VERSION 1 71\n/begin PROJECT p \"\"\n/begin MODULE m \"\"\n/begin A2ML\n");
+    t.push_str(def);
+    t.push_str("\n/end A2ML\n/begin IF_DATA Y 1\n/end IF_DATA\n/end MODULE\n/end PROJECT");
+    let r = load_from_string(&t, None, false);
+    vrt_observe_bool(r.is_ok());
+}
